@@ -4,6 +4,7 @@ package compact
 
 import (
 	"diagonal.works/b6"
+	"diagonal.works/b6/encoding"
 	"diagonal.works/b6/verifrt"
 )
 
@@ -139,4 +140,160 @@ func verifLemma_C31_compact_order(t1, t2 b6.FeatureType, n1, n2 Namespace, v1, v
 	verifrt.Assert(compactLess == lexLess, "compact-order-is-lexicographic")
 	rs := References{{TypeAndNamespace: c1, Value: v1}, {TypeAndNamespace: c2, Value: v2}}
 	verifrt.Assert(rs.Less(0, 1) == lexLess, "references-less-agrees")
+}
+
+// ---- C11: list codecs and composite records, bounded shapes -----------------
+// Lists of exactly two (and, where cheap, three) elements with arbitrary
+// symbolic contents; loops fully unwound with unwinding assertions. These are
+// bounded lemmas (labelled so in the evidence); the unbounded statements are
+// the loop-invariant contracts in zz_verif_contracts.go.
+
+func verifLemma_C11_latlngs2(a, b LatLng, primary TypeAndNamespace) {
+	var buffer [64]byte
+	lls := LatLngs{a, b}
+	n := lls.Marshal(primary, buffer[0:])
+	var got LatLngs
+	m := got.Unmarshal(primary, buffer[0:])
+	verifrt.Assert(m == n, "consumes-what-was-written")
+	verifrt.Assert(len(got) == 2, "length")
+	verifrt.Assert(got[0] == a && got[1] == b, "elements")
+}
+
+func verifLemma_C11_references2(a, b Reference, primary TypeAndNamespace) {
+	var buffer [64]byte
+	rs := References{a, b}
+	n := rs.Marshal(primary, buffer[0:])
+	var got References
+	m := got.Unmarshal(primary, buffer[0:])
+	verifrt.Assert(m == n, "consumes-what-was-written")
+	verifrt.Assert(len(got) == 2, "length")
+	verifrt.Assert(got[0] == a && got[1] == b, "elements")
+	verifrt.Assert(rs[0] == a && rs[1] == b, "marshal-leaves-its-input-alone")
+}
+
+func verifLemma_C11_references3(a, b, c Reference, primary TypeAndNamespace) {
+	var buffer [96]byte
+	rs := References{a, b, c}
+	n := rs.Marshal(primary, buffer[0:])
+	var got References
+	m := got.Unmarshal(primary, buffer[0:])
+	verifrt.Assert(m == n, "consumes-what-was-written")
+	verifrt.Assert(len(got) == 3, "length")
+	verifrt.Assert(got[0] == a && got[1] == b && got[2] == c, "elements")
+}
+
+// ---- C11: wire view of a Reference (unbounded list proofs) --------------------
+// A Reference is written either explicitly, as uvarint(tn<<1|1) uvarint(value),
+// or, when its namespace is the primary one and bit 63 of the value is clear,
+// as the single uvarint(value<<1).
+
+func vRefExplicit(tn TypeAndNamespace, v uint64, primary TypeAndNamespace) bool {
+	return tn != primary || v>>63 == 1
+}
+
+func vRefLen(tn TypeAndNamespace, v uint64, primary TypeAndNamespace) int {
+	if vRefExplicit(tn, v, primary) {
+		return encoding.VerifUvlen(uint64(tn)<<1|1) + encoding.VerifUvlen(v)
+	}
+	return encoding.VerifUvlen(v << 1)
+}
+
+// The reference stored at b[p:]: its length in bytes (0 when nothing well
+// formed starts there), whether it is well formed, and its two fields.
+func refLenAt(b []byte, p int) int {
+	n := encoding.VerifUvLen(b, p)
+	if n <= 0 {
+		return 0
+	}
+	if encoding.VerifUvVal(b, p)&1 == 1 {
+		m := encoding.VerifUvLen(b, p+n)
+		if m <= 0 {
+			return 0
+		}
+		return n + m
+	}
+	return n
+}
+
+func refOKAt(b []byte, p int) bool {
+	n := encoding.VerifUvLen(b, p)
+	if !encoding.VerifUvOK(b, p) || n < 1 {
+		return false
+	}
+	if encoding.VerifUvVal(b, p)&1 == 1 {
+		return encoding.VerifUvOK(b, p+n) && encoding.VerifUvLen(b, p+n) >= 1
+	}
+	return true
+}
+
+func refTNAt(b []byte, p int, primary TypeAndNamespace) TypeAndNamespace {
+	h := encoding.VerifUvVal(b, p)
+	if h&1 == 1 {
+		return TypeAndNamespace(h >> 1)
+	}
+	return primary
+}
+
+func refValAt(b []byte, p int) uint64 {
+	h := encoding.VerifUvVal(b, p)
+	if h&1 == 1 {
+		return encoding.VerifUvVal(b, p+encoding.VerifUvLen(b, p))
+	}
+	return h >> 1
+}
+
+// ---- C11: References lists ------------------------------------------------------
+// Elements in the primary namespace are delta coded against the previous primary
+// element (zigzag of the difference); the others are written as they are.
+
+// rLast is the value of the last primary-namespace element among rs[0:j] (0 if none).
+func rLast(rs References, j int, primary TypeAndNamespace) uint64 {
+	if j <= 0 {
+		return 0
+	}
+	if rs[j-1].TypeAndNamespace == primary {
+		return rs[j-1].Value
+	}
+	return rLast(rs, j-1, primary)
+}
+
+// rWire is the value field written for element j.
+func rWire(rs References, j int, primary TypeAndNamespace) uint64 {
+	if rs[j].TypeAndNamespace == primary {
+		return encoding.ZigzagEncode(int64(rs[j].Value) - int64(rLast(rs, j, primary)))
+	}
+	return rs[j].Value
+}
+
+// rLen is the number of bytes of element j, rPos its offset.
+func rLen(rs References, j int, primary TypeAndNamespace) int {
+	return vRefLen(rs[j].TypeAndNamespace, rWire(rs, j, primary), primary)
+}
+
+func rPos(rs References, j int, primary TypeAndNamespace) int {
+	if j <= 0 {
+		return 0
+	}
+	return rPos(rs, j-1, primary) + rLen(rs, j-1, primary)
+}
+
+// rAt: element j of rs is stored at its offset in b.
+func rAt(b []byte, rs References, j int, primary TypeAndNamespace) bool {
+	p := rPos(rs, j, primary)
+	return refOKAt(b, p) && refLenAt(b, p) == rLen(rs, j, primary) &&
+		refTNAt(b, p, primary) == rs[j].TypeAndNamespace && refValAt(b, p) == rWire(rs, j, primary)
+}
+
+// C11: a References list of every length decodes to what was encoded and the
+// decoder consumes exactly the bytes written. Both calls go through the
+// contracts proved for the two functions; k is the quantified element index.
+func verifLemma_C11_references(rs References, primary TypeAndNamespace, buffer []byte, k int) {
+	n := rs.MarshalWithoutLength(primary, buffer)
+	verifrt.Ghost("w", rs)
+	got := make(References, 0)
+	m := got.UnmarshalWithoutLength(len(rs), primary, buffer)
+	verifrt.Assert(m == n, "consumes-what-was-written")
+	verifrt.Assert(len(got) == len(rs), "length")
+	verifrt.Assume(0 <= k && k < len(rs))
+	verifrt.Assert(got[k] == rs[k], "element")
 }
